@@ -69,6 +69,11 @@ func (endpoint *PairVerify) ServeHTTP(response http.ResponseWriter, request *htt
 		b := out.GetByte(pair.TagSequence)
 		switch pair.VerifyStepType(b) {
 		case pair.VerifyStepFinishResponse:
+			if out.GetByte(pair.TagErrCode) != pair.ErrCodeNo.Byte() {
+				// verification failed, the connection stays as it is
+				break
+			}
+
 			// The response must leave in plain text: send it before the
 			// cryptographer is handed over, otherwise a concurrent read on
 			// the connection activates the encryption too early.
